@@ -223,6 +223,10 @@ func (n *Node) Engine() *consensus.DPoVP { return n.BC.VerifEngine() }
 
 // InTurn asks the real schedule which deputy may mine on parent at chain time t (seconds).
 func (n *Node) InTurn(parent *types.Header, t uint32) (Key, error) {
+	if n.DM.GetDeputiesCount(parent.Height+1) == 0 {
+		// GetCorrectMiner divides by the deputy count; the real miner asks GetMyMinerAddress first
+		return Key{}, fmt.Errorf("no stable term for height %d", parent.Height+1)
+	}
 	a, err := consensus.GetCorrectMiner(parent, int64(t)*1000, int64(n.W.SlotMs), n.DM)
 	if err != nil {
 		return Key{}, err
